@@ -560,6 +560,12 @@ def curated():
     T.append(S("AbiRem1", [F("a", "u16"), F("old", "u16", ver=(0, 0), removed="AbiRemoved"), F("b", "u32", ver=(1, None))], versions=(0, 1), repr="C", containers=("vec", "arr")))
     T.append(S("As1", [F("a", "u8"), F("b", "u32", ver=(1, None), as_=[(0, 0, "u16", 0)])], versions=(0, 1), containers=("vec",)))
     T.append(S("As2", [F("s", "String", ver=(2, None), as_=[(0, 1, "u32", 1)]), F("t", "u32", ver=(1, None), as_=[(0, 0, "u16", 2)])], versions=(0, 1, 2), containers=("vec",)))
+    # derived enums that look like library types (same variant names and payloads, different wire format):
+    # `Result` writes a bool tag (Ok = 1), `Option` a bool tag (Some = 1); these write the variant index
+    T.append(E("OkErrLike", [Vr("Ok", [F("x0", "u32")]), Vr("Err", [F("x0", "String")])], containers=("vec",)))
+    T.append(E("ErrOkLike", [Vr("Err", [F("x0", "String")]), Vr("Ok", [F("x0", "u32")])], containers=()))
+    T.append(E("OkErrUnitLike", [Vr("Ok", [F("x0", "()")]), Vr("Err", [F("x0", "()")])], containers=()))
+    T.append(E("NoneSomeLike", [Vr("None"), Vr("Some", [F("x0", "u16")])], containers=()))
     # a field that was added at version 1 and converted later: its `versions_as` ranges do not start at 0
     T.append(S("AsLate", [F("a", "u8"), F("g", "u32", ver=(2, None), as_=[(1, 1, "u16", 0)]), F("z", "u16")], versions=(0, 1, 2), containers=("vec",)))
     T.append(S("AsLate2", [F("s", "String", ver=(3, None), as_=[(1, 1, "u16", 3), (2, 2, "u32", 1)]), F("t", "u32", ver=(2, None), as_=[(1, 1, "u16", 2)], default_val="5")],
@@ -819,6 +825,12 @@ def write_plugins(plugins):
             if k >= 1:
                 src += ["    fn added_v1(&self, x: u32) -> u32 { self.0.added_v1(x) }"]
             src += ["}", "savefile_abi_export!(P%s, I%s);" % (fam, fam), ""]
+        if k == 0:
+            # an implementation whose constructor creates a connection of its own (C16: nested creation)
+            src += ["#[derive(Default)]", "pub struct PNest(sfv_harness::abitraits::NestImpl);",
+                    "use sfv_harness::abitraits::Nest;",
+                    "impl Nest for PNest {", "    fn ping(&self, x: u32) -> u32 { self.0.ping(x) }", "}",
+                    "savefile_abi_export!(PNest, Nest);", ""]
         src += ["/// what the implementation observed during the last call on this thread (the library has its own copy of the harness statics)",
                 "#[no_mangle]",
                 "pub extern \"C\" fn sfv_take_observed(buf: *mut u8, cap: usize) -> usize {",
